@@ -1,0 +1,14 @@
+//go:build !verif
+
+// Package verifhook provides cooperative scheduling points for a
+// deterministic simulator. Without the build tag "verif" every function in
+// this package is empty.
+package verifhook
+
+import "context"
+
+// Enabled reports whether the binary was built with the verif tag.
+const Enabled = false
+
+// Yield does nothing in regular builds.
+func Yield(context.Context, string) {}
